@@ -14,7 +14,7 @@ import mpmath as mp
 
 import gen
 import oracle
-from oracle import REG, mpf
+from oracle import REG, mpf, M
 
 ROT_GROUPS = ["SO2", "SE2", "SO3", "SE3", "SE_2_3", "SGal3"]
 
@@ -747,6 +747,93 @@ def j_c18t(case, resps):
     return out
 
 
+def _rz(a):
+    c, s_ = mp.cos(a), mp.sin(a)
+    return M([[c, -s_, 0], [s_, c, 0], [0, 0, 1]])
+
+
+def _ry(a):
+    c, s_ = mp.cos(a), mp.sin(a)
+    return M([[c, 0, s_], [0, 1, 0], [-s_, 0, c]])
+
+
+def _rx(a):
+    c, s_ = mp.cos(a), mp.sin(a)
+    return M([[1, 0, 0], [0, c, -s_], [0, s_, c]])
+
+
+def _wrap(a):
+    return mp.atan2(mp.sin(a), mp.cos(a))
+
+
+def j_c13(case, resps):
+    """constructors reproduce the supplied quantities; rotation() orthonormal, det +1; acceptance
+    threshold; normalize; NDEBUG never rejects (that half is checked by the correspondence)"""
+    grp = case["group"]
+    g = REG[grp]
+    out = []
+    for (kind, data), line, r in zip(case["plan"], case["reqs"], resps):
+        v, e = parse(r)
+        if kind == "accept":
+            if v is None:
+                out.append(V("C13", grp, "make", "accept", case["tags"], line, "data within the acceptance threshold rejected (%s)" % r[:30], data, gen.EPS))
+            continue
+        if kind == "reject":
+            if v is not None:
+                out.append(V("C13", grp, "make", "reject", case["tags"], line, "rotation data with |norm-1| = %.3g accepted with assertions enabled" % data, data, gen.EPS))
+            continue
+        if v is None or not fin(v):
+            out.append(V("C13", grp, kind, "status", case["tags"], line, "no finite result: %s" % r[:60], float("inf"), 0))
+            continue
+        if kind == "normalize":
+            n = _rot_norm(grp, v)
+            if abs(n - 1.0) >= gen.EPS:
+                out.append(V("C13", grp, "normalize", "norm", case["tags"], line, "normalize() left |norm-1| = %.3g" % abs(n - 1), abs(n - 1), gen.EPS))
+            continue
+        Tm = g.T(mpl(v))
+        R = Tm[0:g.dim, 0:g.dim]
+        # orthonormal, det +1 (of the element built)
+        d = oracle.maxdiff(R * R.T, mp.eye(g.dim))
+        if d > 1e-12:
+            out.append(V("C13", grp, kind, "orthonormal", case["tags"], line, "rotation() not orthonormal", d, 1e-12))
+        if abs(mp.det(R) - 1) > 1e-12:
+            out.append(V("C13", grp, kind, "det", case["tags"], line, "det rotation() != 1", abs(mp.det(R) - 1), 1e-12))
+        ref = None
+        if kind == "ctor_angle":
+            ref = _rz(mpf(data[0]))[0:2, 0:2]
+        elif kind == "ctor_xyt":
+            ref = _rz(mpf(data[2]))[0:2, 0:2]
+            tr = [mpf(data[0]), mpf(data[1])]
+        elif kind == "ctor_rpy":
+            ref = _rz(mpf(data[2])) * _ry(mpf(data[1])) * _rx(mpf(data[0]))
+        elif kind == "ctor_xyzrpy":
+            ref = _rz(mpf(data[5])) * _ry(mpf(data[4])) * _rx(mpf(data[3]))
+            tr = mpl(data[0:3])
+        elif kind in ("ctor_aa", "ctor_taa"):
+            off = 0 if kind == "ctor_aa" else 3
+            ang, ax = mpf(data[off]), mpl(data[off + 1:off + 4])
+            W = oracle._skew(ax)
+            ref = mp.eye(3) + mp.sin(ang) * W + (1 - mp.cos(ang)) * W * W
+            if kind == "ctor_taa":
+                tr = mpl(data[0:3])
+        elif kind == "ctor_iso":
+            n_ = g.dim + 1
+            H = oracle.mat_of_rows(data, n_, n_)
+            ref = H[0:g.dim, 0:g.dim]
+            tr = [H[i, g.dim] for i in range(g.dim)]
+        if ref is not None:
+            d = oracle.maxdiff(R, ref)
+            tol = 1e-12 * (1 + max(abs(float(x)) for x in data))
+            if d > tol:
+                out.append(V("C13", grp, kind, "rotation", case["tags"], line, "rotation() does not reproduce the supplied rotation", d, tol))
+        if kind in ("ctor_xyt", "ctor_xyzrpy", "ctor_taa", "ctor_iso"):
+            got = [Tm[i, g.n - 1] for i in range(g.dim)]
+            d = max(abs(a - b) for a, b in zip(got, tr))
+            if d > 0:
+                out.append(V("C13", grp, kind, "translation", case["tags"], line, "translation() does not reproduce the supplied translation", d, 0))
+    return out
+
+
 def _binom(n, k):
     return math.comb(n, k)
 
@@ -839,7 +926,7 @@ def j_c17g(case, resps):
 
 STAGE2 = {"logexp": s2_logexp, "c04": s2_c04, "c16": s2_c16}
 JUDGES = {"c07": j_c07, "c04": j_c04, "c15": j_c15, "c15phi": j_c15phi, "c16": j_c16, "c16empty": j_c16empty,
-          "c17": j_c17, "c17g": j_c17g, "c18": j_c18, "c18t": j_c18t, "c01": j_c01, "c02": j_c02, "c03a": j_c03_explog, "c03b": j_c03_logexp2,
+          "c17": j_c17, "c17g": j_c17g, "c18": j_c18, "c18t": j_c18t, "c13": j_c13, "c01": j_c01, "c02": j_c02, "c03a": j_c03_explog, "c03b": j_c03_logexp2,
           "c05": j_c05, "c06": j_c06, "c06adj": j_c06_adj}
 
 
@@ -1000,6 +1087,58 @@ def cases_algo(prop, r, group, n, exe):
                            ops=ops, eps=gen.EPS, identical=identical, tags=["n%d" % cnt, "radius:%g" % radius] + tags))
         cs.append(dict(prop=prop, group=group, kind="c16empty", tags=["empty"],
                        reqs=[gen.req(dbg, "o", group, op, 0, [gen.EPS], [20]) for op in ops]))
+    elif prop == "C13":
+        reqs, plan = [], []
+        lin = lambda k: [gen.pick(r, gen.LIN_STRATA, ["zero", "tiny", "unit", "large"])[1] * r.choice([-1, 1]) for _ in range(k)]
+        for _ in range(n):
+            # acceptance threshold (assertion build): norm deviation k*eps
+            X, tags = gen.element(r, group, norm="exact")
+            if group not in l1.NO_ROTATION:
+                k = r.choice([0.0, 0.3, -0.3, 0.8, -0.8, 1.5, -1.5, 10.0, -10.0, 1e6])
+                Xs, i = list(X), 0
+                for kind, m in gen.GROUPS[group]["rep"]:
+                    if kind in ("complex", "quat"):
+                        for j in range(i, i + m):
+                            Xs[j] = X[j] * (1 + k * gen.EPS)
+                    i += m
+                plan.append(("accept" if abs(k) < 0.95 else "reject", abs(k) * gen.EPS))
+                reqs.append(gen.req(dbg, "o", group, "make", 0, Xs))
+                sc = r.choice([1e-3, 0.5, 1.0, 3.0, 1e5])
+                Xn, i = list(X), 0
+                for kind, m in gen.GROUPS[group]["rep"]:
+                    if kind in ("complex", "quat"):
+                        for j in range(i, i + m):
+                            Xn[j] = X[j] * sc
+                    i += m
+                plan.append(("normalize", None))
+                reqs.append(gen.req(dbg, "o", group, "normalize", 0, Xn))
+            if group == "SO2":
+                a = l1._angle(r)
+                plan.append(("ctor_angle", [a])); reqs.append(gen.req(dbg, "o", group, "ctor_angle", 0, [a]))
+            elif group == "SE2":
+                d = lin(2) + [l1._angle(r)]
+                plan.append(("ctor_xyt", d)); reqs.append(gen.req(dbg, "o", group, "ctor_xyt", 0, d))
+                c, s_ = math.cos(d[2]), math.sin(d[2])
+                h = [c, -s_, d[0], s_, c, d[1], 0.0, 0.0, 1.0]
+                plan.append(("ctor_iso", h)); reqs.append(gen.req(dbg, "o", group, "ctor_iso", 0, h))
+            elif group == "SO3":
+                d = [l1._angle(r), l1._angle(r), l1._angle(r)]
+                plan.append(("ctor_rpy", d)); reqs.append(gen.req(dbg, "o", group, "ctor_rpy", 0, d))
+                ax, _ = gen.direction(r, 3)
+                d = [l1._angle(r)] + ax
+                plan.append(("ctor_aa", d)); reqs.append(gen.req(dbg, "o", group, "ctor_aa", 0, d))
+            elif group == "SE3":
+                d = lin(3) + [l1._angle(r), l1._angle(r), l1._angle(r)]
+                plan.append(("ctor_xyzrpy", d)); reqs.append(gen.req(dbg, "o", group, "ctor_xyzrpy", 0, d))
+                ax, _ = gen.direction(r, 3)
+                d = lin(3) + [l1._angle(r)] + ax
+                plan.append(("ctor_taa", d)); reqs.append(gen.req(dbg, "o", group, "ctor_taa", 0, d))
+                Rm, _ = l1._rotmat(r)
+                t = lin(3)
+                h = Rm[0:3] + [t[0]] + Rm[3:6] + [t[1]] + Rm[6:9] + [t[2]] + [0.0, 0.0, 0.0, 1.0]
+                plan.append(("ctor_iso", h)); reqs.append(gen.req(dbg, "o", group, "ctor_iso", 0, h))
+        if reqs:
+            cs.append(dict(prop=prop, group=group, kind="c13", reqs=reqs, plan=plan, tags=["ctor"]))
     elif prop == "C18":
         G = gen.GROUPS[group]
         for _ in range(n):
